@@ -19,11 +19,17 @@ PROP = "C10"
 
 
 FORMS = ["kw", "pos", "pos-so", "omit", "pos-omit"]
+INT_FORM = [None]
 
 
 def compute(R, form, avals, ph, so, meas):
     """the same request in every calling form the signature allows (positional, keyword, defaults left to the library)"""
     a, p = np.array(avals), np.array(ph)
+    if INT_FORM[0] and all(float(v).is_integer() for v in avals):
+        # whole-number signal points (-1, 0, 1 are legal points, both end points among them) in the containers a caller
+        # naturally writes them in: Python ints, an integer ndarray, a tuple, a range
+        iv = [int(v) for v in avals]
+        a = {"int-list": iv, "int-array": np.array(iv, dtype=int), "int-tuple": tuple(iv), "int8-array": np.array(iv, dtype=np.int8)}[INT_FORM[0]]
     if form == "pos":
         return R.ComputeQSPResponse(a, p, so, meas)
     if form == "pos-so":
@@ -53,6 +59,11 @@ def resp_case(ctx, R, LP, rng, n, given=None, py_override=None, extra_replay=Non
         # every a in [-1,1]: also non-zero values far below 1 (squares underflow) and denormals
         avals.append(float(rng.choice([1e-155, -1e-160, 1e-200, -1e-300, 5e-324, 1e-17, -3e-9])))
     form = FORMS[int(rng.integers(len(FORMS)))]
+    INT_FORM[0] = None
+    if given is None and rng.random() < 0.15:
+        avals = [float(v) for v in [[-1, 0, 1], [0], [1, -1], [0, 1], [1], [-1, 0]][int(rng.integers(6))]]
+        INT_FORM[0] = str(rng.choice(["int-list", "int-array", "int-tuple", "int8-array"]))
+        ctx.count("signal-points:" + INT_FORM[0])
     if given is not None:
         ph, pat, so, meas, avals = given[:5]
         form = given[5] if len(given) > 5 else form
